@@ -1342,7 +1342,7 @@ func (f *fragment) rangeLT(bitDepth uint, predicate int64, allowEquality bool) (
 	}
 
 	// If predicate is positive, return all positives less than predicate and all negatives.
-	if (predicate >= 0 && allowEquality) || (predicate >= -1 && !allowEquality) {
+	if predicate >= 0 {
 		pos, err := f.rangeLTUnsigned(b.Difference(f.row(bsiSignBit)), bitDepth, upredicate, allowEquality)
 		if err != nil {
 			return nil, err
@@ -1398,6 +1398,12 @@ func (f *fragment) rangeLTUnsigned(filter *Row, bitDepth uint, predicate uint64,
 		}
 	}
 
+	// A strict comparison only gets here when the predicate is zero:
+	// no unsigned value is less than that.
+	if !allowEquality {
+		return NewRow(), nil
+	}
+
 	return filter, nil
 }
 
@@ -1411,7 +1417,7 @@ func (f *fragment) rangeGT(bitDepth uint, predicate int64, allowEquality bool) (
 	}
 
 	// If predicate is positive, return all positives greater than predicate.
-	if (predicate >= 0 && allowEquality) || (predicate >= -1 && !allowEquality) {
+	if predicate >= 0 {
 		return f.rangeGTUnsigned(b.Difference(f.row(bsiSignBit)), bitDepth, upredicate, allowEquality)
 	}
 
@@ -1453,6 +1459,12 @@ func (f *fragment) rangeGTUnsigned(filter *Row, bitDepth uint, predicate uint64,
 		if i > 0 {
 			keep = keep.Union(filter.Intersect(row))
 		}
+	}
+
+	// A strict comparison only gets here when there are no bits to compare
+	// (bitDepth is zero): no value is greater than the predicate.
+	if !allowEquality {
+		return NewRow(), nil
 	}
 
 	return filter, nil
